@@ -45,9 +45,11 @@ fn field_ty(f: &FieldDescr, spelling: u8) -> String {
             match spelling {
                 1 => format!("std::option::Option<{inner}>"),
                 2 => format!("core::option::Option<{inner}>"),
+                3 => format!("(Option<{inner}>)"),
                 _ => format!("Option<{inner}>"),
             }
         }
+        t if spelling == 3 => format!("({})", rust_ty(t)),
         t => rust_ty(t),
     }
 }
@@ -147,6 +149,22 @@ fn evolution_attr(rd: &RecordDescr) -> String {
 
 fn emit_struct(d: &Decl, rd: &RecordDescr, out: &mut String) {
     let name = &d.name;
+    if d.opt_spelling == 4 && !d.tags.contains(&"unit") {
+        // declared through a macro: field types are `ty` fragments
+        writeln!(out, "macro_rules! decl_{name} {{ ($( $(#[$m:meta])* $f:ident : $t:ty ),* $(,)?) => {{").unwrap();
+        writeln!(out, "#[derive(desert::BinaryCodec)]").unwrap();
+        out.push_str(&evolution_attr(rd));
+        writeln!(out, "pub struct {name} {{ $( $(#[$m])* pub $f: $t, )* }}").unwrap();
+        writeln!(out, "}} }}").unwrap();
+        writeln!(out, "decl_{name}! {{").unwrap();
+        for f in &rd.fields {
+            if let Some(dv) = &f.transient {
+                writeln!(out, "    #[transient({})]", rust_expr(&f.ty, dv)).unwrap();
+            }
+            writeln!(out, "    {}: {},", f.name, field_ty(f, 0)).unwrap();
+        }
+        writeln!(out, "}}").unwrap();
+    } else {
     writeln!(out, "#[derive(desert::BinaryCodec)]").unwrap();
     out.push_str(&evolution_attr(rd));
     if d.tags.contains(&"unit") {
@@ -160,6 +178,7 @@ fn emit_struct(d: &Decl, rd: &RecordDescr, out: &mut String) {
             writeln!(out, "    pub {}: {},", f.name, field_ty(f, d.opt_spelling)).unwrap();
         }
         writeln!(out, "}}").unwrap();
+    }
     }
     writeln!(out, "impl Bridge for {name} {{").unwrap();
     writeln!(out, "    fn ty() -> Ty {{ refmodel::spec::decl_ty({name:?}, THOROUGH) }}").unwrap();
